@@ -104,7 +104,7 @@ def evaluate(ctx, cases, per_batch=120):
         st = o["stage"]
         if st in ("ran", "abort"):
             j = judge_run(c, o)
-            res.append({"stage": st, "symptom": j[0] if j else None, "detail": j[1] if j else None})
+            res.append({"stage": st, "symptom": j[0] if j else None, "detail": j[1] if j else None, "obs": o})
         elif st == "check":
             errs = o.get("err") or []
             res.append({"stage": st, "symptom": "check:spec-accepts-checker-rejects",
